@@ -8,6 +8,9 @@
    [init c true] is the manager with concurrency [c] running the current code (with C13-fix-1). *)
 From Coq Require Import List Arith Bool.
 From SV Require Import Model.Task Proofs.Task.
+From SV Require Model.TaskPairs Proofs.TaskPairs.
+From SV Require Import Model.TaskSearch.
+From Coq Require Import NArith.
 Import ListNotations.
 
 (* The counter the code reads is the specification quantity (prioritized tasks in progress or inside their
@@ -132,6 +135,35 @@ Theorem C13_monitor_sound :
 Proof. intros c tr s. exact (accept_reachable tr (init c true) s c [] eq_refl). Qed.
 Print Assumptions C13_monitor_sound.
 
+(* ---- the premise "prioritized begin/end pairs": the call structure of the callers (Model/TaskPairs.v) ---- *)
+(* A function body of the form  <counter-free statements>; X.DoPrioritizedTask(); defer X.DonePrioritizedTask();
+   <counter-free statements>  - the form of every caller in fs/fs.go, fs/layer/layer.go and store/manager.go, which the
+   taskpairs harness re-extracts from the source on every run - leaves the counter of every manager exactly where it
+   found it on EVERY execution: return anywhere, falling off the end, a panic in any statement, any branching,
+   any number of loop iterations.  So no path leaks a prioritized count (which would starve background tasks forever). *)
+Theorem C13_pairs_balanced :
+  forall l s o s', Model.TaskPairs.paired l = true -> Model.TaskPairs.exec l s o s' ->
+    forall x, Model.TaskPairs.final s' x = Model.TaskPairs.final s x.
+Proof. exact Proofs.TaskPairs.paired_balanced. Qed.
+Print Assumptions C13_pairs_balanced.
+
+(* The bounded enumeration of executions that the harness and the correspondence check use to look for leaks only
+   produces executions of the relation the theorem above quantifies over. *)
+Theorem C13_pairs_enumeration_sound :
+  forall fuel l s s', In s' (Model.TaskPairs.runs fuel l s) -> exists o, Model.TaskPairs.exec l s o s'.
+Proof. exact Proofs.TaskPairs.runs_sound. Qed.
+Print Assumptions C13_pairs_enumeration_sound.
+
+(* Non-vacuity / why the rule matters: the shape of store/manager.go's prefetch goroutine is accepted, while the
+   hand-paired variant "Do; if c { Done; return }; work; Done" leaks the count when work panics. *)
+Example C13_pairs_nonvacuous :
+  Model.TaskPairs.paired [Model.TaskPairs.SDo 0; Model.TaskPairs.SDeferDone 0;
+                          Model.TaskPairs.SIf [Model.TaskPairs.SOther; Model.TaskPairs.SReturn] []; Model.TaskPairs.SOther] = true
+  /\ Model.TaskPairs.leaks_upto 14 1 [Model.TaskPairs.SDo 0;
+                                     Model.TaskPairs.SIf [Model.TaskPairs.SDone 0; Model.TaskPairs.SReturn] [];
+                                     Model.TaskPairs.SOther; Model.TaskPairs.SDone 0] = true.
+Proof. vm_compute. split; reflexivity. Qed.
+
 (* Non-vacuity. *)
 (* a body is running, a prioritized task begins: hypotheses of C13_cancel_on_prio / clause (3) hold *)
 Example C13_nonvacuous_running :
@@ -148,3 +180,21 @@ Example C13_nonvacuous_window :
   /\ all_returned_b (exec s [Act 0 Start; Act 0 Cancel; Act 0 (BodyDone 0); Act 0 Join; Act 0 Release; PrioEnd; PrioDec;
                              Act 0 Pass; Act 0 Acquire; Act 0 Decide; Act 0 Start; Act 0 (BodyDone 1); Act 0 Finish; Act 0 Release]) = true.
 Proof. vm_compute. repeat split. discriminate. Qed.
+
+(* ---- SEARCH AID (not a proof obligation; the theorems above cover all sizes): exhaustive exploration, inside Coq, of
+   EVERY interleaving of every atomic step for bounded scenarios - n invocations x m prioritized begin/end pairs, bodies
+   finishing arbitrarily late, context timeouts - checking on every reachable state the clauses as boolean predicates
+   (Model/TaskSearch.v: bound, no self-overlap, nothing running outside the select/join, start only when quiet or cancel
+   pending, counter = in progress + in silence, semaphore accounting) and that no reachable state is a deadlock.
+   summary = (reachable states, violating states, deadlocked states, final states, exploration complete). ---- *)
+Example C13_search_2inv_2prio_conc1 : summary (search 1 true 2 2 (N.to_nat 2000)) = (1768, 0, 0, 6, true)%N.
+Proof. vm_cast_no_check (@eq_refl _ (1768, 0, 0, 6, true)%N). Qed.
+Example C13_search_2inv_2prio_conc2 : summary (search 2 true 2 2 (N.to_nat 6000)) = (5874, 0, 0, 9, true)%N.
+Proof. vm_cast_no_check (@eq_refl _ (5874, 0, 0, 9, true)%N). Qed.
+Example C13_search_2inv_3prio_conc2 : summary (search 2 true 2 3 (N.to_nat 20000)) = (19584, 0, 0, 16, true)%N.
+Proof. vm_cast_no_check (@eq_refl _ (19584, 0, 0, 16, true)%N). Qed.
+Example C13_search_3inv_2prio_conc1 : summary (search 1 true 3 2 (N.to_nat 11000)) = (10510, 0, 0, 10, true)%N.
+Proof. vm_cast_no_check (@eq_refl _ (10510, 0, 0, 10, true)%N). Qed.
+(* the same search on the code before C13-fix-1 finds the defect: 1280 of 3103 reachable states violate a clause *)
+Example C13_search_before_fix : summary (search 1 false 2 2 (N.to_nat 3200)) = (3103, 1280, 0, 17, true)%N.
+Proof. vm_cast_no_check (@eq_refl _ (3103, 1280, 0, 17, true)%N). Qed.
